@@ -438,7 +438,7 @@ def exec_header(header, cfg, d, twice):
 
 def p3_jobs(tier, rng, wd, headers):
     jobs = []
-    sub = set(rng.sample(headers, max(1, len(headers) // 3))) if headers else set()
+    sub = set(rng.sample(headers, max(1, len(headers) // 5))) if headers else set()
     other = rng.choice(CONFIGS[1:])
     for h in headers:
         cfgs = list(CONFIGS) if tier == "thorough" else ([REF, other] if h in sub else [REF])
